@@ -5,7 +5,7 @@ import random
 from fractions import Fraction as F
 
 from symx.core import Shape
-from symx import refsem as R
+from symx import fock, refsem as R
 from symx.num import Sym, SymEscape
 
 PROPERTY = "C20"
@@ -415,6 +415,46 @@ def h_qpe_reuse(env, fam, k, m):
                          f"QPE[{fam}] with a shared TrotterSuzukiUnitary object, register of {kk} qubits: probability of outcome {bits} for phase {m}/2^{k}")
 
 
+def h_refstate(env, which, mapping, utd, occs):
+    """ref_state given as an OCCUPATION LIST (documented alternative to a Circuit) with the documented options qubit_mapping and
+    up_then_down: the reference circuit the solver builds prepares the basis state on which, for every spin-orbital p of the
+    caller's (alternating) ordering, the mapped number operator n_p has eigenvalue occ[p] - the state whose eigenphase the
+    caller asked for. Decided on the real QPESolver / IterativeQPESolver constructors and build(); the operator-side reference is
+    fermion_to_qubit_mapping with the same options (its agreement with the state encoders is property C05), plus, for JW, the
+    plain re-ordering of the occupation list."""
+    from tangelo.algorithms.projective.qpe import QPESolver
+    from tangelo.algorithms.projective.iqpe import IterativeQPESolver
+    from tangelo.toolboxes.operators import FermionOperator
+    from tangelo.toolboxes.qubit_mappings.mapping_transform import fermion_to_qubit_mapping
+    cls = QPESolver if which == "qpe" else IterativeQPESolver
+    for occ in occs:
+        n_so = len(occ)
+        ne = sum(occ)
+        # a diagonal Hamiltonian with distinct dyadic orbital energies: every occupation pattern has its own eigenphase
+        hf = FermionOperator()
+        for p_ in range(n_so):
+            hf += FermionOperator(((p_, 1), (p_, 0)), 1.0 / 2 ** (p_ + 1))
+        qh = fermion_to_qubit_mapping(hf, mapping, n_spinorbitals=n_so, n_electrons=ne, up_then_down=utd, spin=0)
+        opts = {"qubit_hamiltonian": qh, "size_qpe_register": 2, "qubit_mapping": mapping, "up_then_down": utd, "ref_state": list(occ),
+                "unitary_options": dict(time=-2 * math.pi, trotter_order=1, n_trotter_steps=1, n_steps_method="repeat"),
+                "backend_options": {"target": "cirq", "n_shots": None if which == "qpe" else 1}}
+        solver = cls(opts)
+        solver.build()
+        rc = solver.reference_circuit
+        n = n_so
+        env.check_true(rc.width <= n, f"{which}[{mapping}, up_then_down={utd}] reference circuit for {occ} acts on the state qubits only", detail=str(rc.width))
+        st = R.run_gates(rc._gates, n, R.basis_state(n, 0))
+        for p_ in range(n_so):
+            qn = fermion_to_qubit_mapping(FermionOperator(((p_, 1), (p_, 0)), 1.0), mapping, n_spinorbitals=n_so, n_electrons=ne, up_then_down=utd, spin=0)
+            out = R.apply_qubit_operator(st, n, dict(qn.terms))
+            env.check_vec_eq(out, [a * occ[p_] for a in st],
+                             f"{which}[{mapping}, up_then_down={utd}] ref_state={list(occ)}: prepared state is an eigenstate of mapped n_{p_} with eigenvalue {occ[p_]}")
+        if mapping == "jw":
+            bits = fock.reorder_vector(list(occ)) if utd else list(occ)
+            env.check_vec_eq(st, R.basis_state(n, int("".join(map(str, bits)), 2)),
+                             f"{which}[jw, up_then_down={utd}] ref_state={list(occ)}: prepared basis state is |{''.join(map(str, bits))}>")
+
+
 def h_qft_structure(env, n, swap):
     """registers too long for a state-level comparison (enumerated, structural): the circuit of get_qft_circuit on n qubits
     holds one H per qubit, exactly one controlled phase per qubit pair with |angle| = pi/2^d for list distance d (none dropped,
@@ -702,6 +742,11 @@ def shapes(tier, seed):
                     out.append(Shape(f"iqpe/{fam}/k{k}/m{m}/{u}", h_iqpe, dict(fam=fam, k=k, m=m, ukind=u), modules=MODS, group="iqpe"))
     for fam_, k_, m_ in (("Z0", 1, 1), ("Z0Z1", 2, 1), ("X0X1", 2, 3), ("Z0+Z1", 1, 1)):
         out.append(Shape(f"qpe-reuse/{fam_}/k{k_}/m{m_}", h_qpe_reuse, dict(fam=fam_, k=k_, m=m_), modules=MODS, group="qpe"))
+    occs = [(1, 1, 0, 0), (0, 1, 0, 0), (1, 0, 1, 1), (1, 0, 0, 1), (0, 0, 1, 0)] + ([(1, 1, 1, 0, 0, 0), (0, 1, 1, 0, 0, 1)] if tier == "thorough" else [])
+    for which in ("qpe", "iqpe"):
+        for mp in ("jw", "bk", "jkmn"):
+            for utd in (False, True):
+                out.append(Shape(f"refstate/{which}/{mp}/utd={int(utd)}", h_refstate, dict(which=which, mapping=mp, utd=utd, occs=occs), modules=MODS, group=which))
     out.append(Shape("canary/qpe/off-by-one", h_qpe, dict(fam="Z0Z1", k=2, m=1, ukind="trotter1", canary=True), modules=MODS,
                      canary=True, group="canary"))
     out.append(Shape("canary/iqpe/off-by-one", h_iqpe, dict(fam="Z0", k=2, m=2, ukind="circuit-all", canary=True), modules=MODS,
